@@ -15,7 +15,7 @@ Definition attrs := list (ident * vid).               (* a Python dict with iden
 Definition sname := list ident.                       (* a name string, split at the dots *)
 
 Definition v_none : vid := 0%N.                       (* None *)
-Definition v_time : vid := 1%N.                       (* any datetime (last_changed ...): not compared *)
+Definition v_time_of (t : N) : vid := (100000 + t)%N.  (* the datetime of logical time t (= index of the step that wrote) *)
 Definition v_func : vid := 2%N.                       (* any callable *)
 
 Definition ename_eqb (a b : ename) : bool := N.eqb (fst a) (fst b) && N.eqb (snd a) (snd b).
@@ -55,7 +55,9 @@ Record host := {
 }.
 
 (* ---------- Home Assistant's state machine ---------- *)
-Definition hastate := (vid * attrs)%type.             (* state string, attributes *)
+(* one hass State object: state string, attributes, and the logical times of last_changed / last_updated /
+   last_reported (the clock is the index of the step during which the write happened) *)
+Record hastate := mk_hs { hs_val : vid; hs_attrs : attrs; hs_lc : N; hs_lu : N; hs_lr : N }.
 Definition hamap := list (ename * hastate).           (* insertion ordered, like hass.states *)
 
 Fixpoint ha_get (m : hamap) (e : ename) : option hastate :=
@@ -82,17 +84,24 @@ Definition attrs_pyeq (H : host) (a b : attrs) : bool :=
                      | None => false
                      end) a.
 
-(* StateMachine.async_set_internal with an already stringified state [s]:
-   same state and same attributes -> nothing changes; same attributes -> the OLD attribute object is kept
-   (so 1 is not replaced by True); otherwise the new pair is stored. *)
-Definition ha_write (H : host) (m : hamap) (e : ename) (s : vid) (a : attrs) : hamap :=
+(* StateMachine.async_set_internal at time [t] with an already stringified state [s]:
+   same state and same attributes -> only last_reported moves; same attributes -> the OLD attribute object is kept
+   (so 1 is not replaced by True); same state -> last_changed is kept; last_updated and last_reported move on every
+   write that changes something. *)
+Definition ha_write (H : host) (t : N) (m : hamap) (e : ename) (s : vid) (a : attrs) : hamap :=
   match ha_get m e with
-  | None => ha_put m e (s, a)
-  | Some st0 => ha_put m e (s, if attrs_pyeq H (snd st0) a then snd st0 else a)
+  | None => ha_put m e (mk_hs s a t t t)
+  | Some st0 =>
+      let same_attr := attrs_pyeq H (hs_attrs st0) a in
+      let same_state := N.eqb s (hs_val st0) in
+      ha_put m e (mk_hs s (if same_attr then hs_attrs st0 else a)
+                        (if same_state then hs_lc st0 else t)
+                        (if same_state && same_attr then hs_lu st0 else t)
+                        t)
   end.
 (* hass.states.async_set(entity, value, attributes): the value is passed through str() *)
-Definition ha_async_set (H : host) (m : hamap) (e : ename) (v : vid) (a : attrs) : hamap :=
-  ha_write H m e (h_str H v) a.
+Definition ha_async_set (H : host) (t : N) (m : hamap) (e : ename) (v : vid) (a : attrs) : hamap :=
+  ha_write H t m e (h_str H v) a.
 (* hass.states.async_remove -> (existed, new map) *)
 Definition ha_async_remove (m : hamap) (e : ename) : bool * hamap :=
   match ha_get m e with
@@ -129,10 +138,18 @@ Definition all_off : deviations :=
   {| d_assign_none_omitted := false; d_setattr_param_clash := false; d_del_ignores_pyvar := false |}.
 
 (* ---------- state.py ---------- *)
-(* StateVal.__new__: __dict__ = attributes.copy(), then the virtual fields are assigned in source order *)
+(* state.<field> for the field codes the translator emits: 0 entity_id, 1 last_changed, 2 last_updated, 3 last_reported *)
+Definition state_field (H : host) (e : ename) (st : hastate) (src : N) : vid :=
+  match src with
+  | 0%N => h_entstr H e
+  | 1%N => v_time_of (hs_lc st)
+  | 2%N => v_time_of (hs_lu st)
+  | _ => v_time_of (hs_lr st)
+  end.
+(* StateVal.__new__: __dict__ = attributes.copy(), then `new_var.X = state.Y` in source order *)
 Definition stateval_new (H : host) (e : ename) (st : hastate) : pyval :=
-  PSnap (fst st)
-        (fold_left (fun (d : attrs) (f : N * bool) => aset (fst f) (if snd f then h_entstr H e else v_time) d) stateval_new_fields (snd st)).
+  PSnap (hs_val st)
+        (fold_left (fun (d : attrs) (f : N * N) => aset (fst f) (state_field H e st (snd f)) d) stateval_new_fields (hs_attrs st)).
 
 (* parts[0] in service2args and parts[2] in service2args[parts[0]] *)
 Definition svc_method (svcargs : list (ident * ident)) (d k : ident) : bool :=
@@ -144,7 +161,7 @@ Definition state_exist (svcargs : list (ident * ident)) (m : hamap) (nm : sname)
   | [d; n; k] =>
       match ha_get m (d, n) with
       | None => false
-      | Some st => svc_method svcargs d k || amem k (snd st) || mem_ident k state_virtual_attrs || mem_ident k state_callable_attrs
+      | Some st => svc_method svcargs d k || amem k (hs_attrs st) || mem_ident k state_virtual_attrs || mem_ident k state_callable_attrs
       end
   | _ => false
   end.
@@ -179,7 +196,7 @@ Definition state_get (H : host) (svcargs : list (ident * ident)) (m : hamap) (nm
 Definition is_none (v : vid) : bool := N.eqb v v_none.
 
 (* State.set(var_name, value=None, new_attributes=None, **kwargs) *)
-Definition state_set (H : host) (m : hamap) (nm : sname) (value : pyval) (new_attributes : option attrs)
+Definition state_set (H : host) (t : N) (m : hamap) (nm : sname) (value : pyval) (new_attributes : option attrs)
            (kwargs : attrs) : res hamap :=
   match nm with
   | [d; n] =>
@@ -197,32 +214,32 @@ Definition state_set (H : host) (m : hamap) (nm : sname) (value : pyval) (new_at
           let na := snd vn in
           let state_value := if is_none v || match na with None => true | Some _ => false end
                              then ha_get m e else None in
-          let v1 := if is_none v then match state_value with Some st => fst st | None => v end else v in
+          let v1 := if is_none v then match state_value with Some st => hs_val st | None => v end else v in
           let na1 := match na with
                      | Some a => a
-                     | None => match state_value with Some st => snd st | None => [] end
+                     | None => match state_value with Some st => hs_attrs st | None => [] end
                      end in
           let na2 := match kwargs with [] => na1 | _ => aupdate na1 kwargs end in
-          Ok (ha_async_set H m e v1 na2)
+          Ok (ha_async_set H t m e v1 na2)
       | _ => Raise EUnmodelled             (* str() of a function / dict result: not modelled *)
       end
   | _ => Raise ENameError
   end.
 
 (* State.setattr("d.n.k", value) -> cls.set("d.n", **{k: value}) *)
-Definition state_setattr (dv : deviations) (H : host) (svcargs : list (ident * ident)) (m : hamap) (nm : sname)
+Definition state_setattr (dv : deviations) (H : host) (t : N) (svcargs : list (ident * ident)) (m : hamap) (nm : sname)
            (value : vid) : res hamap :=
   match nm with
   | [d; n; k] =>
       if negb (state_exist svcargs m [d; n]) then Raise ENameError
       else if d_setattr_param_clash dv && N.eqb k set_param_value then
-             state_set H m [d; n] (PVal value) None []          (* **{"value": v} binds the parameter *)
+             state_set H t m [d; n] (PVal value) None []          (* **{"value": v} binds the parameter *)
       else if d_setattr_param_clash dv && mem_ident k set_param_other then Raise EUnmodelled
-      else state_set H m [d; n] (PVal v_none) None [(k, value)]
+      else state_set H t m [d; n] (PVal v_none) None [(k, value)]
   | _ => Raise ENameError
   end.
 
-Definition state_delete (H : host) (m : hamap) (nm : sname) : res hamap :=
+Definition state_delete (H : host) (t : N) (m : hamap) (nm : sname) : res hamap :=
   match nm with
   | [d; n] =>
       let r := ha_async_remove m (d, n) in
@@ -231,7 +248,7 @@ Definition state_delete (H : host) (m : hamap) (nm : sname) : res hamap :=
       match ha_get m (d, n) with
       | None => Raise ENameError
       | Some st =>
-          if amem k (snd st) then state_set H m [d; n] (PVal (fst st)) (Some (adel k (snd st))) []
+          if amem k (hs_attrs st) then state_set H t m [d; n] (PVal (hs_val st)) (Some (adel k (hs_attrs st))) []
           else Raise EAttributeError
       end
   | _ => Raise ENameError
@@ -246,7 +263,7 @@ Definition state_getattr (m : hamap) (arg : pyval + sname) : res pyval :=
   | inr [d; n] =>
       match ha_get m (d, n) with
       | None => Ok (PVal v_none)
-      | Some st => Ok (PDict (snd st))
+      | Some st => Ok (PDict (hs_attrs st))
       end
   | inr _ => Raise ENameError
   end.
